@@ -15,13 +15,18 @@
    Variant = "requeue" is the intended algorithm.  Variant = "drop" is the
    algorithm of the pinned Client/File (`_write` does not re-queue the chunk
    after EAGAIN/EINTR): TLC then produces the counterexample histories that
-   the replay must contain.  It is a generator, never an oracle.            *)
+   the replay must contain.  It is a generator, never an oracle.
+   Variant = "eofdiscard" is the pinned File opened for reading and writing
+   ('a+', 'r+', 'w+'): when a read finds end-of-file it stops polling the
+   descriptor with poller.discard(), which also forgets the writer while
+   chunks are still queued.                                                 *)
 EXTENDS WriteBufOps, Naturals, TLC
 
 CONSTANTS Sizes,      \* payload sizes the environment may write
           MaxWrites,  \* number of write events
           MaxSteps,   \* length of the environment history
-          Variant,    \* "requeue" | "drop"
+          Variant,    \* "requeue" | "drop" | "eofdiscard"
+          WithEof,    \* BOOLEAN: the endpoint is also read from (File in a '+' mode) and reads hit end-of-file
           WithFatalKeep \* BOOLEAN: include the Client's "signal but stay open" reaction to a fatal errno
 
 VARIABLES buf,      \* Seq([off, len])   queued chunks            (_buffer / _buffers[sock])
@@ -84,7 +89,7 @@ Ready(kind, k) ==
                                 /\ UNCHANGED <<phase, closeflag>>
              [] kind = "transient" ->
                   /\ k = 0
-                  /\ LET nb == IF Variant = "requeue" THEN <<c>> \o rest ELSE rest
+                  /\ LET nb == IF Variant = "drop" THEN rest ELSE <<c>> \o rest
                      IN /\ IF nb = <<>> /\ closeflag
                            THEN /\ buf' = <<>> /\ phase' = "closed" /\ writing' = FALSE
                                 /\ closeflag' = FALSE
@@ -107,6 +112,15 @@ Ready(kind, k) ==
                      ELSE /\ buf' = rest /\ writing' = (rest # <<>>)
                           /\ Emit(<<Line("send", c.off, c.len, "fatal"), Line("signal", 0, 0, "")>>)
                           /\ UNCHANGED <<phase, closeflag>>
+
+(* a read-readiness event that finds end-of-file (File._read, modes with 'a'
+   or '+'): the endpoint stops reading; its write side is untouched *)
+ReadEof ==
+  /\ WithEof /\ CanStep /\ phase = "open"
+  /\ hist' = Append(hist, <<"E", "", 0>>)
+  /\ writing' = IF Variant = "eofdiscard" THEN FALSE ELSE writing
+  /\ Emit(<<Line("eof", 0, 0, "")>>)
+  /\ UNCHANGED <<buf, closeflag, phase, nw>>
 
 CloseReq ==
   /\ CanStep /\ phase = "open" /\ P.creq = -1
@@ -131,6 +145,7 @@ Quiet ==
 Next == \/ \E n \in Sizes : Write(n)
         \/ \E kind \in {"accept", "transient", "fatal", "fatalkeep"}, k \in 0..3 : Ready(kind, k)
         \/ CloseReq
+        \/ ReadEof
         \/ Quiet
 
 Spec == Init /\ [][Next]_vars
